@@ -647,6 +647,9 @@ func (tt *TermTable) bvCmp(op Op, a, b *Term) *Term {
 			return TrueT
 		}
 	}
+	if r := tt.cmpWide(op, a, b); r != nil { // sign/magnitude facts of wide terms, termwide.go
+		return r
+	}
 	if r := tt.cmpIteConst(op, a, b); r != nil { // ite-tree of constants vs constant, term_itecmp.go
 		return r
 	}
@@ -986,6 +989,8 @@ type Emitter struct {
 	defined map[uint64]bool
 	decl    map[string]bool
 	out     *strings.Builder
+	// assertStyle: (declare-fun t () S)(assert (= t body)) instead of define-fun (solver_fresh.go)
+	assertStyle bool
 }
 
 func NewEmitter() *Emitter {
@@ -1048,6 +1053,12 @@ func (e *Emitter) Define(t *Term) {
 				}
 				fmt.Fprintf(e.out, ") %s)\n", cur.S)
 			}
+		}
+		if e.assertStyle {
+			fmt.Fprintf(e.out, "(declare-fun t%d () %s)\n(assert (= t%d ", cur.ID, cur.S, cur.ID)
+			e.expr(cur)
+			e.out.WriteString("))\n")
+			continue
 		}
 		fmt.Fprintf(e.out, "(define-fun t%d () %s ", cur.ID, cur.S)
 		e.expr(cur)
